@@ -173,15 +173,27 @@ func hdrEquivalent(a, b *rtp.Header) bool {
 	return true
 }
 
-// legacyProfile draws an extension profile that is neither 0xBEDE nor 0x1000, with half of the mass on
-// the neighbours of those two values (same upper bits, same lower bits, +-1): a decoder that masks
-// or rounds the profile treats one of them as an RFC 8285 form.
+// isTwoByte: RFC 8285 4.3 - the two-byte form is announced by 0x100 followed by four application bits
+// ("appbits"), which a receiver ignores: 0x1000 .. 0x100F
+func isTwoByte(profile uint16) bool { return profile&0xFFF0 == 0x1000 }
+
+// twoByteProfile draws a two-byte profile: 0x1000 in three quarters of the cases, otherwise with appbits set
+func twoByteProfile(c *RNG) uint16 {
+	if c.Intn(4) == 0 {
+		return 0x1000 | uint16(c.Pick(1, 2, 5, 8, 15, 1+c.Intn(15)))
+	}
+	return 0x1000
+}
+
+// legacyProfile draws an extension profile that is neither 0xBEDE nor one of 0x1000..0x100F, with half of
+// the mass on the neighbours of those values (same upper bits, same lower bits, +-1): a decoder that
+// masks or rounds the profile too generously treats one of them as an RFC 8285 form.
 func legacyProfile(c *RNG) uint16 {
 	if c.Bool() {
-		return uint16(c.Pick(0x1001, 0x1002, 0x100F, 0x1010, 0x0FFF, 0x1100, 0x0000, 0x0001, 0xBEDF, 0xBEDD, 0xBED0, 0xBEEE, 0xBEDE^0x8000, 0xDEBE, 0x0010, 0xFFFF))
+		return uint16(c.Pick(0x1010, 0x1011, 0x101F, 0x0FFF, 0x0FF0, 0x1100, 0x2000, 0x9000, 0x0000, 0x0001, 0xBEDF, 0xBEDD, 0xBED0, 0xBEEE, 0xBEDE^0x8000, 0xDEBE, 0x0010, 0xFFFF))
 	}
 	for {
-		if v := uint16(c.Intn(65536)); v != 0xBEDE && v != 0x1000 {
+		if v := uint16(c.Intn(65536)); v != 0xBEDE && !isTwoByte(v) {
 			return v
 		}
 	}
